@@ -37,6 +37,9 @@ var c05Keys = []string{"k1", "k2", "k3"}
 func genC05(r *Rng, tier string, idx int) *Plan {
 	p := &Plan{Knobs: map[string]int64{}, SKnobs: map[string]string{}}
 	if idx%5 == 4 {
+		if (idx/5)%2 == 1 {
+			return genConnConc(r, tier, p)
+		}
 		return genC05Actors(r, tier, p)
 	}
 	if idx%5 == 0 || idx%5 == 1 {
@@ -203,6 +206,9 @@ func runConcCore(t *testing.T, p *Plan, ns string) *Outcome {
 		defer s.uninstall()
 		dice := p.NewDice()
 		nclients := int(p.K("clients"))
+		if p.K("parklocks") == 1 {
+			s.ParkLocks = map[string]bool{"conninfo": true, "acl.users": true, "pubsub.channels": true, "pubsub.subscribers": true}
+		}
 		boot := func(id int) (*Instance, []*Client) {
 			inst, err := s.Boot(id, BaseConfig)
 			if err != nil {
@@ -214,8 +220,11 @@ func runConcCore(t *testing.T, p *Plan, ns string) *Outcome {
 			}
 			cs := make([]*Client, nclients)
 			for i := range cs {
-				if p.K("tcp") == 1 && i == 0 {
+				if (p.K("tcp") == 1 && i == 0) || p.K("alltcp") == 1 {
 					cs[i] = s.NewTCPClient(inst, fmt.Sprintf("i%dc%d", id, i))
+					if db := p.K(fmt.Sprintf("cdb%d", i)); db > 0 && int(db) < len(connDBs) {
+						cs[i].DoSync("SELECT", connDBs[db])
+					}
 				} else {
 					cs[i] = s.NewEmbeddedClient(inst, fmt.Sprintf("i%dc%d", id, i))
 				}
@@ -307,6 +316,10 @@ func runConcCore(t *testing.T, p *Plan, ns string) *Outcome {
 			}
 		}
 		for i, st := range ops {
+			if (st == nil || !st.done) && p.Profile == "conn" && panicSig == "" {
+				panicSig = ns + "/never-answered/" + strings.ToUpper(p.Ops[i].Args[0])
+				o.Detail = fmt.Sprintf("commands %v issued concurrently: %q was never answered (parked tasks left: %d)", opsStrings(p.Ops), p.Ops[i].Args, len(s.ParkedTasks()))
+			}
 			if st == nil || !st.done {
 				// a command that never completed: deadlock or lost wake-up
 				if conc.results[i] == "" {
@@ -372,11 +385,22 @@ func runConcCore(t *testing.T, p *Plan, ns string) *Outcome {
 			}
 			return false
 		}
+		if p.Profile == "conn" && hasCmd(p.Ops, "SWAPDB") && Avoiding(p, ns+"/conn-nonserializable/SWAPDB") {
+			// open finding: SWAPDB is not atomic. The plan was still run for its liveness content (every command
+			// answered, no deadlock, no panic); the serial-order comparison is skipped.
+			o.Skipped++
+			matched = true
+			return
+		}
 		matched = runSerials()
 		// Some handlers iterate over Go maps: the same serial order can give different outcomes from one
 		// execution to the next. Before calling an outcome non-serializable the serial orders are therefore
 		// repeated; the concurrent outcome only has to be produced by one of them once.
-		for rep := 0; rep < 40 && !matched; rep++ {
+		reps := 40
+		if p.Profile == "conn" {
+			reps = 5 // no map-iteration dependent commands among the generated ones; 90 orders per round
+		}
+		for rep := 0; rep < reps && !matched; rep++ {
 			matched = runSerials()
 			if len(serials) > len(orders) {
 				serials = serials[:len(orders)] // keep the first round for the report
@@ -435,6 +459,17 @@ func runConcCore(t *testing.T, p *Plan, ns string) *Outcome {
 			known = b
 			break
 		}
+	}
+	if p.Profile == "conn" && known == "" {
+		o.Sig = ns + "/conn-nonserializable/" + connCulprit(p.Ops)
+		o.Detail = fmt.Sprintf("connections issuing %v concurrently: replies %v and the final dataset match no serial order (of %d); e.g. serial order %v gives replies %v; dataset diff vs that order: %s",
+			opsStrings(p.Ops), conc.results, len(serials), orders[0], serials[0].results, DiffData(conc.data, serials[0].data, "concurrent", "serial", 4))
+		return o
+	}
+	if p.Profile == "conn" && ns != "C05" {
+		// a data command with a recorded non-atomicity finding (C05) was interleaved: C05's business
+		o.Skipped++
+		return o
 	}
 	switch {
 	case rel == "shared" && known != "":
